@@ -32,6 +32,13 @@ import (
 //	             EnterField_type merges the attributes with mergeAttrsWithPrecendence and sets Opt only under
 //	             `ctx.QN() != nil`: FieldMerged; anything else FieldUnknown
 //
+//	event_attrs  the assignments to ep.Attrs in EnterEvent with all enclosing conditions, innermost first (attributes of an event REPLACE)
+//	rest_inherit the statements of EnterMethod_def that read s.rest_attrs / write restEndpoint.Attrs (attributes of the
+//	             enclosing paths, outermost first, merged into {patterns: [rest]}, then the method's own, then into the endpoint)
+//	rest_attrs_stack  every assignment to s.rest_attrs (push in EnterRest_endpoint, pop in ExitRest_endpoint, reset)
+//	pb_merges    every call of package mergo in pkg/parse/parse.go: `mergo.Merge(listener.module, v.syslProtoImport)`
+//	             without options is what Merge/Model.v mergo_state transliterates
+//
 // Everything is found by role, never by line number.
 func init() { register("MergeRules", mergeRules) }
 
@@ -245,7 +252,7 @@ func mergeRules(repo string) (string, error) {
 	type create struct{ fn, m, guard string }
 	var creates []create
 	follow := []string{"EnterName_with_attribs", "EnterTable", "EnterEnum", "EnterSimple_endpoint", "EnterMethod_def", "EnterEvent",
-		"EnterAlias", "ExitAlias", "EnterUnion", "EnterSubscribe"}
+		"EnterAlias", "ExitAlias", "EnterUnion", "EnterSubscribe", "EnterView"}
 	for _, name := range follow {
 		fd := funcs[name]
 		if fd == nil {
@@ -277,6 +284,8 @@ func mergeRules(repo string) (string, error) {
 					which = "Types"
 				case strings.HasSuffix(r, "currentApp().Endpoints"):
 					which = "Endpoints"
+				case strings.HasSuffix(r, "currentApp().Views"):
+					which = "Views"
 				case r == "srcApp.Endpoints":
 					which = "PublisherEndpoints"
 				}
@@ -399,6 +408,85 @@ func mergeRules(repo string) (string, error) {
 		}
 	}
 
+	// ---- round 3, second pass: statement texts (whitespace removed)
+	squash := func(n ast.Node) string { return strings.Join(strings.Fields(mrPrint(fset, n)), "") }
+	// event_attrs: every assignment to ep.Attrs in EnterEvent, with the condition of the innermost enclosing if
+	var eventAttrs []string
+	if fd := funcs["EnterEvent"]; fd != nil {
+		par := mrParents(fd.Body)
+		ast.Inspect(fd.Body, func(n ast.Node) bool {
+			if as, ok := n.(*ast.AssignStmt); ok && len(as.Lhs) == 1 && mrPrint(fset, as.Lhs[0]) == "ep.Attrs" {
+				cond := "-"
+				if ifs := mrEnclosingIfs(par, as); len(ifs) > 0 { // every enclosing condition, innermost first
+					var cs []string
+					for _, i := range ifs {
+						cs = append(cs, squash(i.Cond))
+					}
+					cond = strings.Join(cs, "&&")
+				}
+				eventAttrs = append(eventAttrs, cond+" => "+squash(as))
+			}
+			return true
+		})
+	}
+	// rest_inherit: the statements of EnterMethod_def that mention s.rest_attrs or write restEndpoint.Attrs
+	var restInherit []string
+	if fd := funcs["EnterMethod_def"]; fd != nil {
+		for _, st := range fd.Body.List {
+			t := squash(st)
+			if strings.Contains(t, "s.rest_attrs") || strings.Contains(t, "restEndpoint.Attrs") || strings.HasPrefix(t, "ifctx.Attribs_or_modifiers()") {
+				restInherit = append(restInherit, t)
+			}
+		}
+	}
+	// rest_attrs_stack: every statement that assigns s.rest_attrs anywhere in the listener (function, text)
+	var restStack []string
+	{
+		var names []string
+		for n := range funcs {
+			names = append(names, n)
+		}
+		sort.Strings(names)
+		for _, fn := range names {
+			ast.Inspect(funcs[fn].Body, func(n ast.Node) bool {
+				if as, ok := n.(*ast.AssignStmt); ok && len(as.Lhs) == 1 && mrPrint(fset, as.Lhs[0]) == "s.rest_attrs" {
+					restStack = append(restStack, fn+": "+squash(as))
+				}
+				return true
+			})
+		}
+	}
+	// pb_merges: every call of package mergo in pkg/parse/parse.go (function, text) - compiled modules in the closure
+	var pbMerges []string
+	if pf, err := parseGo(repo, "pkg/parse/parse.go"); err == nil {
+		for _, fd := range funcDecls(pf.file) {
+			if fd.Body == nil {
+				continue
+			}
+			ast.Inspect(fd.Body, func(n ast.Node) bool {
+				if ce, ok := n.(*ast.CallExpr); ok {
+					if se, ok := ce.Fun.(*ast.SelectorExpr); ok {
+						if id, ok := se.X.(*ast.Ident); ok && id.Name == "mergo" {
+							var b bytes.Buffer
+							printer.Fprint(&b, pf.fset, ce)
+							pbMerges = append(pbMerges, fd.Name.Name+": "+strings.Join(strings.Fields(b.String()), ""))
+						}
+					}
+				}
+				return true
+			})
+		}
+	} else {
+		pbMerges = append(pbMerges, "unreadable")
+	}
+	strList := func(name string, l []string) string {
+		var q []string
+		for _, x := range l {
+			q = append(q, "\""+strings.ReplaceAll(strings.ReplaceAll(x, "\"", "'"), "(*", "( *")+"\"")
+		}
+		return "Definition " + name + " : list string := [\n  " + strings.Join(q, ";\n  ") + "].\n"
+	}
+
 	var sb strings.Builder
 	sb.WriteString("(* GENERATED by vt MergeRules from pkg/parse/listener_impl.go -- do not edit *)\n")
 	sb.WriteString("From Coq Require Import String List Bool.\nImport ListNotations.\nRequire Import Verif.Merge.Model.\nLocal Open Scope string_scope.\n")
@@ -433,5 +521,6 @@ func mergeRules(repo string) (string, error) {
 		fmt.Fprintf(&sb, "  (\"%s\", \"%s\", %s)%s\n", c.fn, c.m, c.guard, sep)
 	}
 	sb.WriteString("].\n")
+	sb.WriteString(strList("event_attrs", eventAttrs) + strList("rest_inherit", restInherit) + strList("rest_attrs_stack", restStack) + strList("pb_merges", pbMerges))
 	return sb.String(), nil
 }
